@@ -669,7 +669,7 @@ def large_specs(draw, aggs, max_k=10, many_ok=True, min_nd=0):
             # a quarter of the rows outside the favourite category, or only one row in ~200 (very sparse indexes)
             "density": density,
             # missing pattern of facts and weights: hashed (about one row in 11 / 13) or none at all
-            "valid": draw(st.sampled_from(["hashed", "hashed", "all", "one"]))}
+            "valid": draw(st.sampled_from(["hashed", "hashed", "all", "one"] if N < 60000 else ["one", "one", "all", "hashed"]))}
     case["fact"] = None if agg == "count" else {
         "K": draw(st.sampled_from([None, None, 2, max_k])), "dtype": draw(st.sampled_from(["float", "int"])),
         "form": "tuple", "as_list": False, "dyadic": True, "mode": "plain"}
